@@ -315,7 +315,7 @@ def asm_lnotab(entries):
     return out
 
 
-def pipeline(ctx, is_lt, bs, nolines, K, v39):
+def pipeline(ctx, is_lt, bs, nolines, K, v39, tail=4):
     N = len(bs)
     ent = []
     for k in range(N):
@@ -332,7 +332,7 @@ def pipeline(ctx, is_lt, bs, nolines, K, v39):
         ent.append((bs[k], l))
     table = (asm_linetable if is_lt else asm_lnotab)(ent)
     items = [L.LineTableItem(line_offset=lo, bytecode_offset=bo) for lo, bo in table]
-    total = sum(bs) + (0 if is_lt else 4)
+    total = sum(bs) + (0 if is_lt else tail)
     col = L.collapse_items([L.LineTableItem(i.line_offset, i.bytecode_offset) for i in items], is_lt)
     mp = L.items_to_mapping(col, total, is_lt)
     sem = {}
@@ -390,6 +390,15 @@ def _register_pipeline():
                         functions=["code_data._line_mapping." + f for f in ("collapse_items", "items_to_mapping", "mapping_to_items", "expand_items")],
                         configs=cfgs, engine="E2", cost=1,
                         notes="bounded: 1 assembler-model entry, byte delta %d, line delta symbolic within +-(127*%d+100): per-offset lines equal CPython's reader and the re-encoded table is identical" % (b, K1))(h)
+        if not is_lt:
+            # the last entry sits exactly at the end of the code (a line event for an instruction the optimizer removed): it must survive decoding
+            for bs in [(b,) for b in B1 if b] + [(2, 2), (254, 2), (2, 256), (0, 4)]:
+                def h(ctx, cfg, v39=v39, bs=bs):
+                    pipeline(ctx, False, bs, (False,) * len(bs), K2, v39, tail=0)
+                harness("lm.pipeline[%s,b=%s,last-entry-at-end-of-code]" % (fmt, ",".join(map(str, bs))), props=["C10", "C01", "C02"],
+                        functions=["code_data._line_mapping." + f for f in ("collapse_items", "items_to_mapping", "mapping_to_items", "expand_items")],
+                        configs=cfgs, engine="E2", cost=2,
+                        notes="bounded: assembler-model entries %r with the last one at offset == len(co_code); line deltas symbolic within +-(127*%d+100): the entry past the last instruction is kept and the table re-encodes identically" % (bs, K2))(h)
         for b1, b2 in itertools.product(B2, repeat=2):
             for nol in (itertools.product([False, True], repeat=2) if is_lt else [(False, False)]):
                 if nol[0] and nol[1]:
